@@ -46,6 +46,7 @@ type Req struct {
 	PreDoc    string     `json:"predoc,omitempty"`    // mkdir/verify in a worker-owned jail: directories made (simple mode) before the call
 	NodeIdx   int        `json:"nodeidx,omitempty"`   // From-Root: operate on the k-th node in pre-order instead of the root (-1: nil)
 	PreOps    []string   `json:"preops,omitempty"`    // From-Root: operations performed on the same tree first ("output", "walk", "walkiter", "json", "massive-output", "mkdir-elsewhere")
+	Stall     *Stall     `json:"stall,omitempty"`     // back-pressure: the sink is held until the splitter is handing over its last block, then something happens
 	Record    bool       `json:"record,omitempty"`    // record the hook events of this call
 	Delays    int64      `json:"delays,omitempty"`    // seed for random delays at hook points (0 = none)
 	Plan      []PlanStep `json:"plan,omitempty"`      // gate: hold goroutines at hook points until the plan allows them
@@ -65,6 +66,14 @@ type PlanStep struct {
 	Item  string  `json:"item,omitempty"`
 	Any   bool    `json:"any,omitempty"` // any item
 	Gid   *uint64 `json:"gid,omitempty"` // the hook's goroutine id must match too (handlers: channel index)
+}
+
+// Stall: every Write call / callback blocks until the splitter has logged its Blocks-th hand-over attempt (the last
+// block: every stage is full by then), then the caller cancels ("cancel") or the writer starts failing ("wfail"),
+// and the sink is let go.  If the splitter never gets there within 10 s the sink is let go and the reply says Unforced.
+type Stall struct {
+	Blocks int    `json:"blocks"`
+	Then   string `json:"then"`
 }
 
 // WFault: Write call number At (1-based) is refused: "fail" accepts nothing, "short" accepts half, "full"
